@@ -305,6 +305,10 @@ def run(ctx):
         strings += [b''.join(t) for t in itertools.product(alpha, repeat=L)]
     if ctx.tier == 'quick':
         strings += [b''.join(rnd.choice(alpha) for _ in range(rnd.choice([4, 5, 6]))) for _ in range(150)]
+    # names that look like 'link|target' on entries that are NOT symbolic links (the part after '|' is only a target for a link;
+    # anywhere else it is part of the name), and other characters with a meaning somewhere: ':' (drive), '|', '*', '?'
+    strings += [b'x|/../../esc', b'x|../../esc', b'|/../../esc', b'd|/../..', b'x|/abs/esc', b'a|b/../../../esc', b'x|\\..\\..\\esc', b'x|\xff..\xff..\xffesc',
+                b'c:../../esc', b'c:/../esc', b'A:..\\..\\esc', b'c:\xff..\xff..\xffesc', b'*/../../esc', b'?/../esc', b'x|', b'|', b':']
     for si, st in enumerate(strings):
         for ch in range(3):
             lvl = (2, 3, 1)[(si + ch) % 3]
